@@ -5,6 +5,7 @@ import (
 	"errors"
 	"fmt"
 	"sync"
+	"sync/atomic"
 	"time"
 	wdog "verifharness/wd"
 
@@ -257,5 +258,86 @@ func RunChildOfDone(how string, racers int, endDelay time.Duration) (panics []st
 		parentClosed = true
 	case <-wdog.After(10 * time.Second):
 	}
+	return
+}
+
+// RunWaitCoversTasks: a scope with `tasks` registered tasks is ended (kill / stop / error) FIRST; then Wait (or Close)
+// is called while the tasks are still running; they then report an error each and sign off.  Wait / Close must not
+// return before the last sign-off, must report every error, and nobody may panic.
+func RunWaitCoversTasks(how string, useClose bool, tasks int) (problems []string) {
+	var pmu sync.Mutex
+	note := func(f string, a ...interface{}) {
+		pmu.Lock()
+		problems = append(problems, fmt.Sprintf(f, a...))
+		pmu.Unlock()
+	}
+	guard := func(what string, f func()) {
+		defer func() {
+			if r := recover(); r != nil {
+				note("%s panicked: %v", what, r)
+			}
+		}()
+		f()
+	}
+	s := scope.New(scope.Params{})
+	if err := s.AddTasks(tasks); err != nil {
+		return []string{"infra: AddTasks: " + err.Error()}
+	}
+	ended := 1
+	switch how {
+	case "kill":
+		guard("Kill", s.Kill)
+	case "stop":
+		guard("Stop", s.Stop)
+		ended = 0
+	case "error":
+		guard("AppendError", func() { s.AppendError(errors.New("first")) })
+	}
+	release := make(chan struct{})
+	var finished int32
+	var wg sync.WaitGroup
+	for i := 0; i < tasks; i++ {
+		wg.Add(1)
+		go func(i int) {
+			defer wg.Done()
+			<-release
+			guard("a task's AppendError", func() { s.AppendError(fmt.Errorf("task %d failed", i)) })
+			atomic.AddInt32(&finished, 1)
+			guard("DoneTask", s.DoneTask)
+		}(i)
+	}
+	returned := make(chan error, 1)
+	go func() {
+		var err error
+		guard("Wait / Close", func() {
+			if useClose {
+				err = s.Close()
+			} else {
+				err = s.Wait()
+			}
+		})
+		returned <- err
+	}()
+	select {
+	case <-returned:
+		note("returned while %d registered tasks were still running", tasks)
+		close(release)
+		wg.Wait()
+		return
+	case <-time.After(3 * time.Millisecond):
+	}
+	close(release)
+	select {
+	case err := <-returned:
+		if f := atomic.LoadInt32(&finished); int(f) != tasks {
+			note("returned when %d of %d tasks had finished", f, tasks)
+		}
+		if n := LeafCount(err); n < tasks+ended {
+			note("reports %d errors; %d were appended (%d by tasks that finished before it returned)", n, tasks+ended, tasks)
+		}
+	case <-wdog.After(10 * time.Second):
+		note("did not return within 10 s after the last task had signed off")
+	}
+	wg.Wait()
 	return
 }
